@@ -90,11 +90,12 @@ theorem bindLocals_lookup (n : String) : ∀ (A : List String), A.Nodup → ∀ 
       | none => simp [ha, lookupAssoc]
       | some j => simp [ha]; omega
 
-variable {Q : QRel} {cx : Cx} {β : CellRel}
+variable {Q : QRel} {cx : Cx} {β : CellRel N}
 
 /-- the injection extended by the cells of equally named declarations -/
-def extPerm (β : CellRel) (A B : List String) (L L' : Nat) : CellRel :=
-  fun a b => β a b ∨ ∃ n i j, idx n A = some i ∧ idx n B = some j ∧ a = L + i ∧ b = L' + j
+def extPerm (β : CellRel N) (A B : List String) (L L' : Nat) : CellRel N :=
+  ⟨fun a b => β a b ∨ ∃ n i j, idx n A = some i ∧ idx n B = some j ∧ a = L + i ∧ b = L' + j,
+    L + A.length, L' + B.length, β.pins⟩
 
 theorem SRel.bindLocalsPerm {σ σ' : State N} (h : SRel Q cx β σ σ') {D : List DName} {A B : List String}
     (hA : A.Nodup) (hB : B.Nodup) (hAB : ∀ n, n ∈ A ↔ n ∈ B) {ws ws' : List (Val N)}
@@ -102,9 +103,33 @@ theorem SRel.bindLocalsPerm {σ σ' : State N} (h : SRel Q cx β σ σ') {D : Li
     {l l' : List (String × Nat)} (he : LocOK cx β D l l') :
     ∃ β', β.le β' ∧ SRel Q cx β' (Sem.bindLocals A ws l σ).2 (Sem.bindLocals B ws' l' σ').2 ∧
       LocOK cx β' D (Sem.bindLocals A ws l σ).1 (Sem.bindLocals B ws' l' σ').1 := by
-  refine ⟨extPerm β A B σ.cells.length σ'.cells.length, fun _ _ hab => .inl hab, ?_, ?_⟩
+  have hle : β.le (extPerm β A B σ.cells.length σ'.cells.length) :=
+    ⟨fun _ _ hab => .inl hab, Nat.le_trans h.front.1 (Nat.le_add_right _ _),
+      Nat.le_trans h.front.2 (Nat.le_add_right _ _), fun a b hab => by
+        rcases hab with hab | ⟨n, i, j, _, _, rfl, rfl⟩
+        · exact .inl hab
+        · exact .inr ⟨Nat.le_trans h.front.1 (Nat.le_add_right _ _), Nat.le_trans h.front.2 (Nat.le_add_right _ _)⟩,
+      fun _ hp => hp⟩
+  refine ⟨extPerm β A B σ.cells.length σ'.cells.length, hle, ?_, ?_⟩
   · rw [bindLocals_state, bindLocals_state]
-    refine ⟨h.globals, h.tables, h.trace, h.ginv, ?_, ?_, ?_, Forall2.imp (fun _ _ hc => hc.mono fun _ _ hab => .inl hab) h.closures⟩
+    have hfront : (extPerm β A B σ.cells.length σ'.cells.length).L ≤ (σ.cells ++ valsOf A ws).length ∧
+        (extPerm β A B σ.cells.length σ'.cells.length).L' ≤ (σ'.cells ++ valsOf B ws').length := by
+      simp only [extPerm, List.length_append, length_valsOf]; exact ⟨Nat.le_refl _, Nat.le_refl _⟩
+    have hpin : ∀ p ∈ (extPerm β A B σ.cells.length σ'.cells.length).pins,
+        (σ'.cells ++ valsOf B ws')[p.1]? = some p.2 ∧
+          ∀ a, ¬ (extPerm β A B σ.cells.length σ'.cells.length) a p.1 := by
+      intro p hp
+      have hh := h.pin p hp
+      have hlt : p.1 < σ'.cells.length := by
+        cases hx : σ'.cells[p.1]? with
+        | none => rw [hx] at hh; cases hh.1
+        | some _ => exact (List.getElem?_eq_some_iff.mp hx).1
+      refine ⟨?_, fun a hab => ?_⟩
+      · rw [List.getElem?_append_left hlt]; exact hh.1
+      · rcases hab with hab | ⟨n, i, j, _, _, _, hb⟩
+        · exact hh.2 a hab
+        · omega
+    refine ⟨h.globals, h.tables, h.trace, h.ginv, h.finv, ?_, ?_, ?_, Forall2.imp (fun _ _ hc => hc.mono hle) h.closures, hfront, hpin⟩
     · intro a b a' b' h1 h2
       rcases h1 with h1 | ⟨n, i, j, hi, hj, rfl, rfl⟩ <;> rcases h2 with h2 | ⟨n', i', j', hi', hj', rfl, rfl⟩
       · exact h.inj h1 h2
@@ -153,13 +178,13 @@ theorem SRel.bindLocalsPerm {σ σ' : State N} (h : SRel Q cx β σ σ') {D : Li
     | none =>
       have : idx n B = none := idx_none_iff.mpr fun hm => (idx_none_iff.mp hi) ((hAB n).mpr hm)
       rw [this]
-      exact OptRel.imp (fun _ _ hab => .inl hab) (he.rel n hn)
+      exact OptRel.imp (fun _ _ hab => Or.inl hab) (he.rel n hn)
     | some i =>
       cases hj : idx n B with
       | none =>
         have hmA : n ∈ A := Decidable.byContradiction fun hm => by rw [idx_none_iff.mpr hm] at hi; cases hi
         exact absurd ((hAB n).mp hmA) (idx_none_iff.mp hj)
-      | some j => exact .inr ⟨n, i, j, hi, hj, rfl, rfl⟩
+      | some j => exact Or.inr ⟨n, i, j, hi, hj, rfl, rfl⟩
 
 /-- same effects, and every name bound to the same value -/
 def LocalEquiv (A : List String) (vs : List Expr) (B : List String) (vs' : List Expr) : Prop :=
@@ -197,6 +222,8 @@ theorem permLocal_sound {D : List DName} {kind kind' : LocalKind} {ns ns' : List
     simp only [] at h2
     rw [h2]
     exact ⟨rfl, β1, hle, hs1⟩
+  · exact RRel.timeout_left h1 _
+  · exact RRel.timeout_left h1 _
   · simp only [] at h2
     rw [h2]
     trivial
